@@ -24,6 +24,6 @@ PROP = dict(
     units=[
         U("pairs", "./server", "^TestVerifC23_Pairs$", 0, 0, sq=1, sth=1, rapid=False, timeout={"quick": 300, "thorough": 900}),
         U("http", "./server", "^TestVerifC23_HTTP$", 0, 0, sq=1, sth=1, rapid=False, timeout={"quick": 300, "thorough": 900}),
-        U("args", "./server", "^TestVerifC23_Args$", 240, 6000, sq=3, sth=10, timeout={"quick": 300, "thorough": 1200}),
+        U("args", "./server", "^TestVerifC23_Args$", 240, 3000, sq=3, sth=10, timeout={"quick": 300, "thorough": 1200}),
     ],
 )
